@@ -145,6 +145,10 @@ std::string encode_manifest(const Manifest& manifest) {
         metadata_bytes += 1 + key.size() + 2 + value.size();
     }
 
+    if (manifest.shards.size() > std::numeric_limits<std::uint8_t>::max()) {
+        throw std::length_error("manifest shard count exceeds limit");
+    }
+
     if (manifest.discovery_hints.size() > std::numeric_limits<std::uint8_t>::max()) {
         throw std::length_error("manifest discovery hint count exceeds limit");
     }
